@@ -117,6 +117,19 @@ func c15One(kind string, input string, docs []*impl.Binding) (msg string) {
 				}
 			}
 		}
+	case "well-typed":
+		g, err := xsel.BuildExpr(input)
+		if err != nil {
+			return ""
+		}
+		b := docs[1]
+		r, err := xsel.Exec(b.Root, &g)
+		if err == nil && r == nil {
+			return "nil result with nil error"
+		}
+		if err != nil && strings.Contains(err.Error(), "xpath query panic") {
+			return "well-typed query failed with an internal panic: " + err.Error()
+		}
 	default:
 		var cur xsel.Cursor
 		var err error
@@ -336,6 +349,55 @@ func C15(c *run.Check) {
 			}
 		}
 		c.Distinct("well-typed")
+	}
+	// every builtin with every argument tuple (arity 0-3) from a value alphabet:
+	// a well-typed call never fails with an internal panic
+	if c.Violations() == 0 {
+		b, _ := impl.Bind(c08Doc(1))
+		vals := []string{"''", "'a'", "'é'", "'ab'", "'😀é'", "' '", "0", "-1", "0.5", "(0 div 0)", "(1 div 0)", "(-1 div 0)", "1000000000000000000", "3", "//zz", "//b", "true()", "(//a/ancestor::*)"}
+		fns := []string{"last", "position", "count", "local-name", "namespace-uri", "name", "string", "concat", "starts-with", "contains", "substring-before", "substring-after", "substring",
+			"string-length", "normalize-space", "translate", "boolean", "not", "true", "false", "lang", "number", "sum", "floor", "ceiling", "round"}
+		type fj struct {
+			f    string
+			args []string
+		}
+		var jobs []fj
+		for _, f := range fns {
+			jobs = append(jobs, fj{f, nil})
+			for _, a := range vals {
+				jobs = append(jobs, fj{f, []string{a}})
+				for _, b2 := range vals {
+					jobs = append(jobs, fj{f, []string{a, b2}})
+					if f == "substring" || f == "translate" || f == "concat" {
+						for _, c3 := range vals {
+							jobs = append(jobs, fj{f, []string{a, b2, c3}})
+						}
+					}
+				}
+			}
+		}
+		var bad atomic.Int64
+		run.ParallelW(len(jobs), func(w, i int) {
+			if bad.Load() > 3 {
+				return
+			}
+			e := jobs[i].f + "(" + strings.Join(jobs[i].args, ", ") + ")"
+			g, _ := BuildImpl(e)
+			if g == nil {
+				return
+			}
+			bb := b
+			if w > 0 {
+				bb, _ = impl.Bind(c08Doc(1))
+			}
+			c.Evaluations.Add(1)
+			o := ExecImpl(bb, bb.Root, g, nil)
+			if o.Panic != "" || IsPanicErr(o) || o.Nil {
+				bad.Add(1)
+				c.Violation(c15Case{Kind: "well-typed", Input: strconv.Quote(e), Detail: o.String()}, fmt.Sprintf("[builtin call] %s: %s", e, o))
+			}
+		})
+		c.Distinct("builtin-calls")
 	}
 	// nesting depth sweeps in subprocesses (a stack overflow kills the process)
 	if c.Violations() == 0 {
